@@ -4,12 +4,8 @@ import vlib, cases
 
 
 def build(sd):
-    files = ["proxysim/main.go", "proxysim/common.go", "proxysim/relay.go"]
-    for f in ("fault.go", "ws.go", "drain.go"):
-        if os.path.exists(os.path.join(vlib.HARNESS, "proxysim", f)):
-            files.append("proxysim/" + f)
-    if len(files) < 6:
-        files.append("proxysim/stubs.go")
+    d = os.path.join(vlib.HARNESS, "proxysim")
+    files = ["proxysim/" + f for f in sorted(os.listdir(d)) if f.endswith(".go")]
     return vlib.go_build("proxysim", "internal/zz_verif/proxysim", files, sd,
                          extra_overlay={"internal/loadbalancer/zz_verif_export.go": "accessors/lb_verif_export.go"})
 
